@@ -3,6 +3,7 @@ package sync
 import (
 	"context"
 	"log/slog"
+	"math"
 	"time"
 
 	"github.com/prometheus/client_golang/prometheus"
@@ -107,12 +108,19 @@ func Run(log *slog.Logger, cfg Config,
 			refClkCorr = time.Duration(
 				float64(timemath.Sgn(refClkCorr)) * refClkMaxCorr)
 		}
+		if refClkMaxCorr < math.MaxInt64 && refClkCorr.Abs() > time.Duration(refClkMaxCorr) {
+			// beyond 2^53 ns the float64 comparison above misses an excess of a few ns
+			refClkCorr = time.Duration(timemath.Sgn(refClkCorr)) * time.Duration(refClkMaxCorr)
+		}
 		refClkOk = len(refClks) != 0
 		var peerClkOk bool
 		if peerClkCorr.Abs() > cfg.PeerClockCutoff {
 			if float64(peerClkCorr.Abs()) > peerClkMaxCorr {
 				peerClkCorr = time.Duration(
 					float64(timemath.Sgn(peerClkCorr)) * peerClkMaxCorr)
+			}
+			if peerClkMaxCorr < math.MaxInt64 && peerClkCorr.Abs() > time.Duration(peerClkMaxCorr) {
+				peerClkCorr = time.Duration(timemath.Sgn(peerClkCorr)) * time.Duration(peerClkMaxCorr)
 			}
 			peerClkOk = len(peerClks) != 0
 		}
